@@ -1,5 +1,16 @@
 import Inkayaku.Gen.Rs.Pgn
 import Inkayaku.Props.C17
+/-! Part of `Props/Translated` (round 5, property C17): the BUFFER layer of the PGN reader `PgnRawParser<R: Read>` (pgn/src/reader.rs;
+generated module `Pgn`, translated in MONADIC MODE: see the header of `Gen/Rs/Pgn.lean`) against the model `Buffered` of `Model/Pgn.lean`.
+
+* `toRs : Buffered → Rs.PgnRawParser Reader`: the regenerated struct value of a model state (the reader state is the model's abstract `Reader`:
+  remaining input + fragmentation schedule); `ReadModel rd`: the MAPPING ASSUMPTION for the opaque `Read::read` (`rd = readF`: writes
+  `min buf.len() (sched calls) rest.length` bytes to the front of the buffer, returns `Ok(n)`; so `0` only at the end of the input).
+* `Good s`: `C17.Inv` + machine bounds (`chunk_size` a `usize`, `position + remaining stream < 2^64`, so `position += 1` never overflows).
+* `rs_ensure_buffer_eq`, `rs_increment_byte_eq`: `ensure_buffer` / `increment_byte` = `Buffered.ensure` / `incr` EXACTLY (no panic);
+  `peek_cases`: the two outcomes of `ensure_buffer` + `current_buffer[current_byte]` + `increment_byte` in step with `Buffered.peek`.
+* `Sim m p rel` / `Total m`, `sim_bind`, `sim_pure`, `good_run`: the simulation framework the other `Pgn*.lean` files use.
+* evaluation lemmas of the state monad `RsM` (`run_bind`, `bind_some`, …), deliberately not `rfl`-lemmas. -/
 
 set_option linter.unusedSimpArgs false
 
@@ -234,7 +245,7 @@ theorem total_bind {α γ : Type} {β : Type} {m : Rs.RsM (Rs.PgnRawParser Reade
     exact h2 a _ (good_run p s hg)
 
 /-- error kinds (the model drops the payloads `position` / `expected` / `actual`) -/
-def errKind : Rs.PgnRawParserError → Err
+def pgnErrKind : Rs.PgnRawParserError → Err
   | .ReadingFromClosedRead => .closed
   | .IllegalConsume _ _ _ => .consume
   | .IllegalSymbol _ _ => .symbol
@@ -242,7 +253,7 @@ def errKind : Rs.PgnRawParserError → Err
 /-- related `Result`s: both `Ok` with related values, or both `Err` of the same kind -/
 def relRes {α β : Type} (r : α → β → Prop) : Except Rs.PgnRawParserError α → Except Err β → Prop
   | .ok a, .ok b => r a b
-  | .error e, .error e' => errKind e = e'
+  | .error e, .error e' => pgnErrKind e = e'
   | _, _ => False
 
 def relByte (a : Int) (b : UInt8) : Prop := a = byteI b
